@@ -197,7 +197,8 @@ Proj(n, p, f, qq, d, rq, cn) ==
    pend |-> [a \in Agent |-> {x.id : x \in p[a]}],
    fwd |-> f,
    q |-> [l \in LinkNames |-> Frames(qq[l])],
-   done |-> {[a |-> x.a, id |-> x.id, who |-> x.who] : x \in d},
+   done |-> {[a |-> x.a, id |-> x.id, who |-> x.who,
+              tgt |-> (CHOOSE r \in rq : r.a = x.a /\ r.id = x.id).tgt] : x \in d},
    g |-> [reqs |-> rq, cancelled |-> cn]]   \* ghosts that bound the model (not compared with the code)
 
 EmitEdge ==
